@@ -173,6 +173,14 @@ func runRace(toks []string) (string, string) {
 				}
 			}
 		})
+		if wl == "shared-writer-rotate" && workers >= 2 {
+			// the files vanish before Close: every worker that holds one fails to finalise it
+			if es, err := os.ReadDir(out); err == nil {
+				for _, e := range es {
+					os.Remove(filepath.Join(out, e.Name()))
+				}
+			}
+		}
 		w.Close()
 		for _, rs := range recs {
 			for _, r := range rs {
